@@ -2,6 +2,8 @@ import RedisVerif.Driver.C07
 import RedisVerif.Driver.C08
 import RedisVerif.Driver.C06
 import RedisVerif.Driver.C01
+import RedisVerif.Driver.C15
+import RedisVerif.Driver.C04
 
 open RedisVerif.Driver
 
@@ -26,4 +28,6 @@ def main (args : List String) : IO UInt32 := do
   | ["C06"] => loopState stdin stdout C06.step (RedisVerif.Cluster.init 0 false); return 0
   | ["C08"] => loopState stdin stdout C08.step (RedisVerif.Shard.init 0 false); return 0
   | ["C01"] | ["C17"] => loopState stdin stdout C01.stepLine RedisVerif.Redis.init; return 0
+  | ["C15"] => loop stdin stdout C15.step; return 0
+  | ["C04"] => loop stdin stdout C04.step; return 0
   | _ => IO.eprintln "usage: rvdriver <property-id> < ops"; return 2
